@@ -67,26 +67,29 @@ class _FakeSocket:
     def get_bulk(self, it):
         return self._next("get_bulk", it)
 
+    def _sent(self, what, *args):
+        self.calls.append((what,) + args)
+
     def send_get(self, oid):
-        return self._next("send_get", oid)
+        return self._sent("send_get", oid)
 
     def recv_get(self):
         return self._next("recv_get")
 
     def send_get_many(self, oids):
-        return self._next("send_get_many", tuple(oids))
+        return self._sent("send_get_many", tuple(oids))
 
     def recv_get_many(self):
         return self._next("recv_get_many")
 
     def send_get_next(self, it):
-        return self._next("send_get_next", it)
+        return self._sent("send_get_next", it)
 
     def recv_get_next(self, it):
         return self._next("recv_get_next", it)
 
     def send_get_bulk(self, it):
-        return self._next("send_get_bulk", it)
+        return self._sent("send_get_bulk", it)
 
     def recv_get_bulk(self, it):
         return self._next("recv_get_bulk", it)
@@ -105,7 +108,7 @@ class SnmpV3ClientSocket(_FakeSocket):
         return self._next("refresh")
 
     def send_refresh(self):
-        return self._next("send_refresh")
+        return self._sent("send_refresh")
 
     def recv_refresh(self):
         return self._next("recv_refresh")
